@@ -8,10 +8,15 @@
    The model must find every event enabled and reproduce class and execution count. *)
 From Coq Require Import List ZArith Bool Arith.
 From TD Require Import Lib.RunLib.
-From TD Require Export Model.ClientRetry.
+From TD Require Export Model.ClientRetry Model.ClientRetryN.
 Import ListNotations.
 
-Definition case := (list event * (Z * nat))%type.
+(* CSingle: one invocation.  CMulti: a whole scenario, all its requests in flight as one joint
+   event list (own events tagged with the request index, environment events shared), with the
+   projected outcome of every request. *)
+Inductive case :=
+| CSingle (es : list event) (cls : Z) (execs : nat)
+| CMulti (n : nat) (mes : list mevent) (obs : list (Z * nat)).
 
 Definition class_of (st : state) : Z :=
   match ph st with
@@ -22,10 +27,18 @@ Definition class_of (st : state) : Z :=
   | _ => 9
   end%Z.
 
+Definition obs_eqb (a b : Z * nat) : bool := Z.eqb (fst a) (fst b) && Nat.eqb (snd a) (snd b).
 Definition ok (c : case) : bool :=
-  let '(es, (cls, execs)) := c in
-  match run init es with
-  | Some st => Z.eqb (class_of st) cls && Nat.eqb (nsends st) execs
-  | None => false
+  match c with
+  | CSingle es cls execs =>
+      match run init es with
+      | Some st => Z.eqb (class_of st) cls && Nat.eqb (nsends st) execs
+      | None => false
+      end
+  | CMulti n mes obs =>
+      match mrun (minit n) mes with
+      | Some ms => list_eqb obs_eqb (map (fun st => (class_of st, nsends st)) ms) obs
+      | None => false
+      end
   end.
 Definition mismatches (cs : list case) : list nat := mismatch_idx ok cs.
